@@ -105,7 +105,8 @@ HARNESSES = [
     _h("api_splice", ["sqfs_istream_splice"], timeout=150, mode="dfcc",
        fp=dict(_FP_IN, append="c12_out_append")),
     _h("record", malloc_fail=True, flags=["--memory-leak-check"],
-       fp={"get_filename": "c12_in_filename"}),
+       fp={"get_filename": "c12_in_filename", "get_buffered_data": "rec_get_buffered_data",
+           "advance_buffer": "rec_advance_buffer"}),
     dict(name="get_line", file="get_line.c",
          label="bounded(text<=3 all flags; <=5 flags 0/4; <=4 flags 7)",
          timeout=600, cases=_GL_CASES,
